@@ -183,6 +183,28 @@ Section Sem.
       sim_func_none : forall op, s_func s op = None -> s_func s' op = None;
       sim_func_formal : forall op fn, s_func s op = Some fn -> Forall formal (g_ins (f_body fn)) /\ Forall L (g_outs (f_body fn)) }.
 
+    (* the same, with the function / subgraph conditions required only for what a live node can reach *)
+    Definition used (op : opid) : Prop := exists v n i, L v /\ s_prod s v = Some (n, i) /\ n_op n = op.
+    (* AE: an invariant of the attribute environments that can occur (True, or "holds no graph attribute") *)
+    Definition usedg (AE : list (str * attr) -> Prop) (g : gid) : Prop :=
+      exists v n i aenv, AE aenv /\ L v /\ s_prod s v = Some (n, i) /\ In g (attr_graphs (resolve aenv (n_attrs n))).
+    Record SimG (AE : list (str * attr) -> Prop) : Prop := {
+      sim_aenv_g : forall v n i fn aenv, L v -> s_prod s v = Some (n, i) -> s_func s (n_op n) = Some fn -> AE aenv ->
+                                         AE (resolve aenv (n_attrs n) ++ f_defaults fn);
+      sim_fix_g : forall v, formal v -> sg v = v;
+      sim_case_g : forall v, L v -> vcase v;
+      sim_graph_g : forall g, usedg AE g -> forall gr, s_graph s g = Some gr ->
+                               exists gr', s_graph s' g = Some gr' /\ g_ins gr' = g_ins gr /\ g_outs gr' = map sg (g_outs gr);
+      sim_graphformal_g : forall g, usedg AE g -> forall gr, s_graph s g = Some gr -> Forall formal (g_ins gr) /\ Forall L (g_outs gr);
+      sim_func_g : forall op, used op -> forall fn, s_func s op = Some fn ->
+                               exists fn', s_func s' op = Some fn' /\ g_ins (f_body fn') = g_ins (f_body fn)
+                                           /\ g_outs (f_body fn') = map sg (g_outs (f_body fn)) /\ f_defaults fn' = f_defaults fn;
+      sim_funcnone_g : forall op, used op -> s_func s op = None -> s_func s' op = None;
+      sim_funcformal_g : forall op, used op -> forall fn, s_func s op = Some fn ->
+                               Forall formal (g_ins (f_body fn)) /\ Forall L (g_outs (f_body fn)) }.
+    Lemma Sim_SimG : Sim -> SimG (fun _ => True).
+    Proof. intros [a b c d e f g]. constructor; eauto. Qed.
+
     Lemma env_ok_bind ins args env : Forall formal ins -> env_ok formal env -> env_ok formal (bind T absent ins args ++ env).
     Proof.
       intros Hf He. revert args. induction ins as [|x ins IH]; intros args v t; simpl; [apply He|].
@@ -198,14 +220,14 @@ Section Sem.
       destruct (alookup env (sg v)) as [t|] eqn:El; [|reflexivity]. exfalso. apply Hnf. eapply He; eauto.
     Qed.
 
-    Theorem sim_refines : Sim ->
-      forall f aenv env v r, env_ok formal env -> L v -> D s f aenv env v = Some r -> D s' f aenv env (sg v) = Some r.
+    Theorem simg_refines AE : SimG AE ->
+      forall f aenv env v r, AE aenv -> env_ok formal env -> L v -> D s f aenv env v = Some r -> D s' f aenv env (sg v) = Some r.
     Proof.
-      intros HS. induction f as [|f IH]; intros aenv env v r He HL E; [discriminate|].
+      intros HS. induction f as [|f IH]; intros aenv env v r Ha He HL E; [discriminate|].
       cbn [den] in E.
       destruct (alookup env v) as [t|] eqn:Eenv.
-      { assert (Hfv : formal v) by (eapply He; eauto). rewrite (sim_fix HS v Hfv). cbn [den]. rewrite Eenv. exact E. }
-      destruct (sim_case HS v HL) as [t Hi Hi' Hd | n i n' Hi Hp Hi' Hp' Hd Hrel Hin
+      { assert (Hfv : formal v) by (eapply He; eauto). rewrite (sim_fix_g AE HS v Hfv). cbn [den]. rewrite Eenv. exact E. }
+      destruct (sim_case_g AE HS v HL) as [t Hi Hi' Hd | n i n' Hi Hp Hi' Hp' Hd Hrel Hin
                                       | n i n' Hi Hp Hi' Hp' Hd Hop Hat [c [k [k' [Hc Hc']]]] Hin Hfn Hlt Htrim
                                       | n x Hi Hp Hid Hins Hlen Hfn HLx Hsg
                                       | n t Hi Hp Hins Hlen Hfn Hc Hi' Hnf | Hi Hp
@@ -213,7 +235,7 @@ Section Sem.
       - (* initializer *)
         rewrite Hi in E. cbn [den]. rewrite (env_none env v He Eenv Hd), Hi'. exact E.
       - (* node mapped to a node *)
-        rewrite Hi, Hp in E. cbn [den]. rewrite (env_none env v He Eenv Hd), Hi', Hp'.
+        rewrite Hi, Hp in E. assert (Hu : used (n_op n)) by (exists v, n, i; auto). cbn [den]. rewrite (env_none env v He Eenv Hd), Hi', Hp'.
         destruct (map_opt _ (n_ins n)) as [tins|] eqn:Eins; [|discriminate].
         destruct Hrel as [Hop Hat Hno [c [k [k' [Hc Hc']]]]].
         (* evaluate the mapped inputs in s' *)
@@ -226,25 +248,25 @@ Section Sem.
         rewrite Hc', map_opt_app, Ec, (map_opt_repeat _ None absent k' eq_refl).
         rewrite Hop, Hat, Hno.
         destruct (s_func s (n_op n)) as [fn|] eqn:Efn.
-        + destruct (sim_func HS _ _ Efn) as [fn' [Efn' [Hfi [Hfo Hfd]]]]. rewrite Efn'.
-          destruct (sim_func_formal HS _ _ Efn) as [Hff HfL].
+        + destruct (sim_func_g AE HS _ Hu _ Efn) as [fn' [Efn' [Hfi [Hfo Hfd]]]]. rewrite Efn'.
+          destruct (sim_funcformal_g AE HS _ Hu _ Efn) as [Hff HfL].
           destruct (nth_error (g_outs (f_body fn)) i) as [o|] eqn:Eo; [|discriminate].
           rewrite Hfo, (map_nth_error sg _ _ Eo), Hfi, Hfd.
           rewrite (bind_app_repeat (g_ins (f_body fn)) tc k' k).
-          apply IH; [apply env_ok_bind0; exact Hff | | exact E].
+          apply IH; [eapply (sim_aenv_g AE HS v n i fn aenv); eauto | apply env_ok_bind0; exact Hff | | exact E].
           rewrite Forall_forall in HfL. apply HfL. eapply nth_error_In; eauto.
-        + rewrite (sim_func_none HS _ Efn).
+        + rewrite (sim_funcnone_g AE HS _ Hu Efn).
           destruct (interp (n_op n) _ _ (tc ++ repeat absent k) _) as [outs|] eqn:Ei; [|discriminate].
           rewrite interp_repeat_absent in Ei. rewrite interp_repeat_absent.
           erewrite interp_mono; [exact E| |exact Ei].
-          apply Forall2_map_same. intros g _ args r' Hr.
+          apply Forall2_map_same. intros g Hg args r' Hr. assert (Hug : usedg AE g) by (exists v, n, i, aenv; auto).
           destruct (s_graph s g) as [gr|] eqn:Eg; [|discriminate].
-          destruct (sim_graph HS _ _ Eg) as [gr' [Eg' [Hgi Hgo]]]. rewrite Eg', Hgi, Hgo, map_opt_map.
-          destruct (sim_graph_formal HS _ _ Eg) as [Hgf HgL].
-          eapply map_opt_impl; [|exact Hr]. intros x y Hx Hy. apply IH; [apply env_ok_bind; assumption | | exact Hy].
+          destruct (sim_graph_g AE HS _ Hug _ Eg) as [gr' [Eg' [Hgi Hgo]]]. rewrite Eg', Hgi, Hgo, map_opt_map.
+          destruct (sim_graphformal_g AE HS _ Hug _ Eg) as [Hgf HgL].
+          eapply map_opt_impl; [|exact Hr]. intros x y Hx Hy. apply IH; [exact Ha | apply env_ok_bind; assumption | | exact Hy].
           rewrite Forall_forall in HgL. apply HgL. exact Hx.
       - (* node with trailing outputs dropped *)
-        rewrite Hi, Hp in E. cbn [den]. rewrite (env_none env v He Eenv Hd), Hi', Hp'.
+        rewrite Hi, Hp in E. assert (Hu : used (n_op n)) by (exists v, n, i; auto). cbn [den]. rewrite (env_none env v He Eenv Hd), Hi', Hp'.
         destruct (map_opt _ (n_ins n)) as [tins|] eqn:Eins; [|discriminate].
         assert (Emap : map_opt (inval (D s' f aenv env)) (map (option_map sg) (n_ins n)) = Some tins).
         { rewrite map_opt_map. eapply map_opt_impl; [|exact Eins].
@@ -253,7 +275,7 @@ Section Sem.
         destruct (map_opt _ c) as [tc|] eqn:Ec; [|discriminate].
         rewrite (map_opt_repeat _ None absent k eq_refl) in Emap. injection Emap as <-.
         rewrite Hc', map_opt_app, Ec, (map_opt_repeat _ None absent k' eq_refl).
-        rewrite Hop, Hat. rewrite Hfn in E. rewrite (sim_func_none HS _ Hfn).
+        rewrite Hop, Hat. rewrite Hfn in E. rewrite (sim_funcnone_g AE HS _ Hu Hfn).
         destruct (interp (n_op n) _ _ (tc ++ repeat absent k) _) as [outs|] eqn:Ei; [|discriminate].
         rewrite interp_repeat_absent in Ei. rewrite interp_repeat_absent.
         assert (Ei' : interp (n_op n) (resolve aenv (n_attrs n))
@@ -262,11 +284,11 @@ Section Sem.
                                             | Some gr => map_opt (D s' f aenv (bind T absent (g_ins gr) args ++ env)) (g_outs gr)
                                             end) (attr_graphs (resolve aenv (n_attrs n)))) tc (length (n_outs n)) = Some outs).
         { eapply interp_mono; [|exact Ei].
-          apply Forall2_map_same. intros g _ args r' Hr.
+          apply Forall2_map_same. intros g Hg args r' Hr. assert (Hug : usedg AE g) by (exists v, n, i, aenv; auto).
           destruct (s_graph s g) as [gr|] eqn:Eg; [|discriminate].
-          destruct (sim_graph HS _ _ Eg) as [gr' [Eg' [Hgi Hgo]]]. rewrite Eg', Hgi, Hgo, map_opt_map.
-          destruct (sim_graph_formal HS _ _ Eg) as [Hgf HgL].
-          eapply map_opt_impl; [|exact Hr]. intros x y Hx Hy. apply IH; [apply env_ok_bind; assumption | | exact Hy].
+          destruct (sim_graph_g AE HS _ Hug _ Eg) as [gr' [Eg' [Hgi Hgo]]]. rewrite Eg', Hgi, Hgo, map_opt_map.
+          destruct (sim_graphformal_g AE HS _ Hug _ Eg) as [Hgf HgL].
+          eapply map_opt_impl; [|exact Hr]. intros x y Hx Hy. apply IH; [exact Ha | apply env_ok_bind; assumption | | exact Hy].
           rewrite Forall_forall in HgL. apply HgL. exact Hx. }
         destruct (Htrim _ _ _ _ Ei') as [outs' [Eo Hnth]]. rewrite Eo, (Hnth i Hlt). exact E.
       - (* eliminated Identity *)
@@ -279,7 +301,7 @@ Section Sem.
         cbn [den]. rewrite (env_none env v He Eenv (or_intror Hnf)), Hi'. exact E.
       - rewrite Hi, Hp in E. discriminate.
       - (* node with equivalent attributes *)
-        rewrite Hi, Hp in E. cbn [den]. rewrite (env_none env v He Eenv Hd), Hi', Hp'.
+        rewrite Hi, Hp in E. assert (Hu : used (n_op n)) by (exists v, n, i; auto). cbn [den]. rewrite (env_none env v He Eenv Hd), Hi', Hp'.
         destruct (map_opt _ (n_ins n)) as [tins|] eqn:Eins; [|discriminate].
         assert (Emap : map_opt (inval (D s' f aenv env)) (map (option_map sg) (n_ins n)) = Some tins).
         { rewrite map_opt_map. eapply map_opt_impl; [|exact Eins].
@@ -288,16 +310,19 @@ Section Sem.
         destruct (map_opt _ c) as [tc|] eqn:Ec; [|discriminate].
         rewrite (map_opt_repeat _ None absent k eq_refl) in Emap. injection Emap as <-.
         rewrite Hc', map_opt_app, Ec, (map_opt_repeat _ None absent k' eq_refl).
-        rewrite Hop, Hno. rewrite Hfn in E. rewrite (sim_func_none HS _ Hfn). rewrite Hag, Hat.
+        rewrite Hop, Hno. rewrite Hfn in E. rewrite (sim_funcnone_g AE HS _ Hu Hfn). rewrite Hag, Hat.
         destruct (interp (n_op n) _ _ (tc ++ repeat absent k) _) as [outs|] eqn:Ei; [|discriminate].
         rewrite interp_repeat_absent in Ei. rewrite interp_repeat_absent.
         erewrite interp_mono; [exact E| |exact Ei].
-        apply Forall2_map_same. intros g _ args r' Hr.
+        apply Forall2_map_same. intros g Hg args r' Hr. assert (Hug : usedg AE g) by (exists v, n, i, aenv; auto).
         destruct (s_graph s g) as [gr|] eqn:Eg; [|discriminate].
-        destruct (sim_graph HS _ _ Eg) as [gr' [Eg' [Hgi Hgo]]]. rewrite Eg', Hgi, Hgo, map_opt_map.
-        destruct (sim_graph_formal HS _ _ Eg) as [Hgf HgL].
-        eapply map_opt_impl; [|exact Hr]. intros x y Hx Hy. apply IH; [apply env_ok_bind; assumption | | exact Hy].
+        destruct (sim_graph_g AE HS _ Hug _ Eg) as [gr' [Eg' [Hgi Hgo]]]. rewrite Eg', Hgi, Hgo, map_opt_map.
+        destruct (sim_graphformal_g AE HS _ Hug _ Eg) as [Hgf HgL].
+        eapply map_opt_impl; [|exact Hr]. intros x y Hx Hy. apply IH; [exact Ha | apply env_ok_bind; assumption | | exact Hy].
         rewrite Forall_forall in HgL. apply HgL. exact Hx.
     Qed.
+    Theorem sim_refines : Sim ->
+      forall f aenv env v r, env_ok formal env -> L v -> D s f aenv env v = Some r -> D s' f aenv env (sg v) = Some r.
+    Proof. intros HS f aenv env v r. apply (simg_refines (fun _ => True)); [apply Sim_SimG; exact HS | exact I]. Qed.
   End Sim.
 End Sem.
